@@ -29,6 +29,9 @@ type InflHistory struct {
 	Clients  [][]InflCall `json:"clients"`
 	Seed     uint64       `json:"seed"`
 	Schedule []int        `json:"schedule,omitempty"`
+	// the simulated clock: time that passes before the history starts, and per scheduling step
+	ClockJumpMS int64 `json:"clock_jump_ms,omitempty"`
+	ClockStepUS int64 `json:"clock_step_us,omitempty"`
 }
 
 // InflCase is a batch of histories executed in order in ONE fresh process
@@ -149,6 +152,10 @@ func DrawInflHistory(r *Rng, id string) InflHistory {
 		}
 		h.Clients = append(h.Clients, calls)
 	}
+	// the process has been idle for a while before this history (minutes, hours), and steps take time
+	// (microseconds, or - a stalled or throttled process - seconds)
+	h.ClockJumpMS = Pick(r, []int64{0, 0, 0, 250, 61_000, 61_000, 3_600_000})
+	h.ClockStepUS = Pick(r, []int64{0, 1, 1, 50, 1_000, 2_000_000, 30_000_000})
 	return h
 }
 
@@ -259,7 +266,7 @@ func executeInfl(env *Env, sc *Scenario) ([]Violation, string, error) {
 	}
 	defer w.Close()
 	for hi, h := range ic.Histories {
-		req := &inflproto.Req{Mode: "sched", Seed: h.Seed, Schedule: h.Schedule}
+		req := &inflproto.Req{Mode: "sched", Seed: h.Seed, Schedule: h.Schedule, ClockJumpMS: h.ClockJumpMS, ClockStepUS: h.ClockStepUS}
 		for _, cl := range h.Clients {
 			var calls []inflproto.Call
 			for _, c := range cl {
@@ -394,7 +401,7 @@ func executeInflRace(env *Env, sc *Scenario) ([]Violation, error) {
 func executeInflVolume(env *Env, sc *Scenario) ([]Violation, error) {
 	ic := sc.Infl
 	// irregular words of each rule type: the prefix clause of the property applies to exactly these
-	req := &inflproto.Req{Mode: "volume", N: ic.Volume, Tag: ic.VolumeTag, Goroutines: ic.Goroutines,
+	req := &inflproto.Req{Mode: "volume", N: ic.Volume, Tag: ic.VolumeTag, Goroutines: ic.Goroutines, ClockStepUS: 1500,
 		PWords: []string{"person", "child", "ox", "cow", "man", "move", "foot", "goose"},
 		SWords: []string{"people", "children", "oxen", "cows", "men", "moves", "feet", "geese"}}
 	var resp inflproto.Resp
